@@ -130,6 +130,6 @@ Proof.
 Qed.
 
 Lemma refine_text_run :
-  exists rs, parse_sheet false refine_env refine_text = inl (rs, None)
+  exists rs, parse_sheet false refine_env (stmts refine_text) = inl (rs, None)
              /\ kinds rs = [COMMENT; IMPORT_RULE; NAMESPACE_RULE; NAMESPACE_RULE; STYLE_RULE; MEDIA_RULE].
 Proof. eexists. split; vm_compute; reflexivity. Qed.
